@@ -12,6 +12,7 @@ Decided:
     with an index field of the buffer; recycle_rx_buffer stores the buffer into the slot of the token returned by the
     new add, after that add succeeded, and records that token in the same index field; can_recv <=> peek_used is
     Some; can_send <=> at least the descriptors of the transmit shape are free.
+ S11 the flag's value follows the negotiated VERSION_1 / MRG_RXBUF bits (= C08.H5).
  S10 packet views: RxBuffer-like byte views are bytes[header size .. header size + recorded length], one length field.
  S5 completions consumed with a token read from the used ring use the buffer looked up by that token (C07.T5).
 Not decided: "posted + owned = all buffers at all times" over histories.
@@ -49,6 +50,10 @@ def run(F, R):
     R.check(sorted(offs.values()) == [0, 1, 2, 4, 6, 8, 10], 'S1', 'header-fields', h12, 'fields at 0,1,2,4,6,8,10', 'virtio_net_hdr field offsets %s' % offs)
     s1_selector(F, R, roles, h12, h10)
     s10_packet_view(F, R, roles, h12, h10)
+    # S11: the selector's value: the legacy-header flag is (not VERSION_1 and not MRG_RXBUF) of the negotiated set, whatever the
+    # transport's queue layout (C08.H5) - otherwise both directions use a header of the wrong size
+    from .C08 import h5_net
+    h5_net(F, RuleProxy(R, {'H5': 'S11'}))
     s2_send(F, R, M, roles, h12, h10)
     s3_receive(F, R, roles, h12, h10)
     s7_tx_length(F, R, roles, h12, h10)
